@@ -48,7 +48,7 @@ def field_of_arg(b, c, idx=0):
 
 def worker(prog, crate):
     """The worker closure: the body that calls Receiver::recv in a loop."""
-    cands = [b for b in prog.lib_bodies(crate) if b.path.startswith(POOL) and any(c.callee == "std::sync::mpsc::Receiver::recv" for c in b.live_calls())]
+    cands = [b for b in prog.owner_bodies(crate) if b.path.startswith(POOL) and any(c.callee == "std::sync::mpsc::Receiver::recv" for c in b.live_calls())]
     return cands[0] if len(cands) == 1 else None
 
 
